@@ -10,11 +10,17 @@ def run(ctx: Ctx):
                 'The harness recomputes every measure (Kruskal-Wallis H from ranks, chi2 with Yates for 2x2, Tschuprow T, Cramer V, Pearson, Spearman via '
                 'ranks) and every inter-feature association from numpy primitives; TLC (SelectorTrace.tla) judges the returned list: distinct inputs, '
                 'decreasing association, at most n_best, pairwise association <= thresh_corr, every omitted feature has a stated reason, the own '
-                'measure values equal the recomputation, inputs unchanged. Non-trivial: at least 3 candidate features; distinct by content.')
+                'measure values equal the recomputation, inputs unchanged. spec -> code: every input of the TLC dump of Selector.tla is run through the real selection '
+                'loop with a table-driven measure and a table-driven DataFrame.corr; the returned list must be a result the specification reaches. Non-trivial: at least 3 candidate features; distinct by content.')
     ctx.assumptions = ['numeric agreement is judged on values scaled by 1e6 with a tolerance of 3 units + 1e-5 relative (TLC cannot evaluate chi2 / H itself)',
                        'exact ties in the measure: any order among tied features accepted']
     sc.design(ctx)
     ctx.notes['design_invariants'] = ['Inv_C14', 'Termination']
+    sc.replay_design(ctx)
+    ctx.exhaustive = True
+    ctx.exhaustive_domain = ('selection loop: every input of Selector.tla for 3 features x measure levels {undefined, 1, 2, 3} x pairwise associations '
+                             '{below, at, above the threshold} x n_best 1..3' + ('' if ctx.tier == 'quick' else ' and for 4 features x levels {undefined, 1, 2} x '
+                             'associations {below, above} x n_best 1..3') + ', replayed through the real selector with table-driven measure and correlation')
     sc.select_cases(ctx, ['C14_'], 500, 5000)
 
 
